@@ -384,6 +384,8 @@ def silent_generators(fi: FuncInfo) -> bool:
   ann = txt(node.returns)
   if not ann.startswith(('Iterator[', 'Iterable[', 'Generator[', 'typing.Iterator[', 'typing.Iterable[', 'typing.Generator[')):
     return False
+  if any('abstractmethod' in txt(d) or 'overload' in txt(d) for d in node.decorator_list):
+    return False
   own = []
   stack = list(node.body)
   while stack:
